@@ -10,7 +10,12 @@ def run(tier):
     exe = driver("asan")
     # M: every spelling of every INVALID line of the bounded family is rejected (AgreesInv)
     # 20: value arguments: a second modification of a variable protected by the original-value check
-    cfgs, beh = model_behaviours(c, tier, cfgsel=[2, 3, 5, 6, 8, 20])
+    if tier == "quick":
+        cfgs, beh = model_behaviours(c, tier, cfgsel=[2, 3, 5, 6, 8, 20])
+    else:
+        cfgs, beh = model_behaviours(c, tier, cfgsel=[3, 5, 8], maxuses=3)
+        cfgs2, beh2 = model_behaviours(c, tier, cfgsel=[2, 6, 20], maxuses=2)
+        beh += beh2
     script = os.path.join(c.wd, "replay.ndjson")
     n = behaviours_script(cfgs, beh, script, select=lambda b: not b["valid"])
     c.notes.append("R: %d distinct (configuration, argv) spellings of rule-breaking lines replayed" % n)
